@@ -252,11 +252,19 @@ func (s *Server) Close() error {
 	case <-s.done:
 		return ErrServerClosed
 	default:
-		close(s.done)
 	}
 
 	var err error
 	s.locker.Lock()
+	// Test and close s.done under the lock: concurrent callers must not
+	// both find it open and close it twice.
+	select {
+	case <-s.done:
+		s.locker.Unlock()
+		return ErrServerClosed
+	default:
+		close(s.done)
+	}
 	for _, l := range s.listeners {
 		if lerr := l.Close(); lerr != nil && err == nil {
 			err = lerr
@@ -283,11 +291,19 @@ func (s *Server) Shutdown(ctx context.Context) error {
 	case <-s.done:
 		return ErrServerClosed
 	default:
-		close(s.done)
 	}
 
 	var err error
 	s.locker.Lock()
+	// Test and close s.done under the lock: concurrent callers must not
+	// both find it open and close it twice.
+	select {
+	case <-s.done:
+		s.locker.Unlock()
+		return ErrServerClosed
+	default:
+		close(s.done)
+	}
 	for _, l := range s.listeners {
 		if lerr := l.Close(); lerr != nil && err == nil {
 			err = lerr
